@@ -58,9 +58,15 @@ def _templates(ctx):
     return ctx.memo("loadeval_templates", build)
 
 
-def make_state(ctx, fopen, bopen):
+def make_state(ctx, fopen, bopen, twin=None):
+    """twin: an instruction equal by value to the one about to be consumed; a copy of it already sits in every list of the module, the
+    open function and the open block (so that "already present" is not confused with "nothing to do")"""
     t = copy.deepcopy(_templates(ctx))
     ld = t["Loader"]
+    if twin is not None:
+        for k_, v_ in ld[2]["module"][2].items():
+            if isinstance(v_, tuple) and v_ and v_[0] == "list" and k_ != "functions":
+                v_[1].append(copy.deepcopy(twin))
     f0 = b0 = None
     if fopen:
         f0 = t["Function"]
@@ -70,6 +76,10 @@ def make_state(ctx, fopen, bopen):
         b0 = t["Block"]
         b0[2]["label"] = ("some", ("sym", "EARLIER_LABEL"))
         ld[2]["block"] = ("some", b0)
+        if twin is not None:
+            b0[2]["instructions"][1].append(copy.deepcopy(twin))
+    if fopen and twin is not None:
+        f0[2]["parameters"][1].append(copy.deepcopy(twin))
     return ld, f0, b0
 
 
@@ -97,13 +107,12 @@ def _find(obj, inst, prefix, out, seen):
 
 def run(ctx, fname, opcode, fopen, bopen):
     f = ctx.rspirv.fn(LDR, fname, "Loader", "Consumer")
-    ld, f0, b0 = make_state(ctx, fopen, bopen)
+    inst = instruction(opcode) if opcode is not None else None
+    ld, f0, b0 = make_state(ctx, fopen, bopen, inst)
     h = LH(ctx)
     ev = progx.make(h, "Loader::" + fname)
     env = {"self": ld}
-    inst = None
     if opcode is not None:
-        inst = instruction(opcode)
         ps = [q[0] for q in f["sig"]["params"] if q[0] != "self"]
         env[ps[0]] = inst
     try:
